@@ -21,9 +21,103 @@ import guppylang_internals.experimental as ex  # noqa: E402
 from guppylang_internals.error import GuppyError  # noqa: E402
 
 PROG = '''
+from collections.abc import Callable
 from guppylang import guppy, qubit
 from guppylang.std.quantum import h
 dagger = object(); control = object(); power = object()
+
+@guppy
+def glob(x: int) -> int:
+    return x + 1
+
+@guppy.struct
+class S:
+    a: int
+    b: int
+
+# ---- capturing closures: what is captured varies (int, float, Callable parameter, local holding a
+# ---- runtime-chosen function value, struct, mixed), and a closure that escapes
+@guppy
+def f_clos_callable(f: Callable[[int], int]) -> None:
+    def inner() -> int:
+        return f(1)
+
+@guppy
+def f_clos_funlocal(b: bool, f: Callable[[int], int]) -> None:
+    g = f if b else glob
+    def inner(y: int) -> int:
+        return g(y)
+
+@guppy
+def f_clos_returned(f: Callable[[int], int]) -> Callable[[int], int]:
+    def twice(y: int) -> int:
+        return f(f(y))
+    return twice
+
+@guppy
+def f_clos_struct(s: S) -> int:
+    def inner() -> int:
+        return s.a + s.b
+    return inner()
+
+@guppy
+def f_clos_mixed(f: Callable[[int], int]) -> None:
+    x = 3
+    def inner() -> int:
+        return f(x)
+
+@guppy
+def f_clos_float(z: float) -> float:
+    def inner(y: float) -> float:
+        return y * z
+    return inner(2.0)
+
+# ---- more list shapes
+@guppy
+def f_list_nested() -> int:
+    xs = [[1], [2, 3]]
+    return 0
+
+@guppy
+def f_list_ret() -> list[int]:
+    return [1, 2]
+
+@guppy
+def f_list_arg(xs: list[list[int]]) -> None:
+    pass
+
+# ---- more function tensor shapes
+@guppy
+def a3(x: int) -> int:
+    return x * 2
+
+@guppy
+def f_tensor3() -> int:
+    a, b, c = (glob, a3, glob)(1, 2, 3)
+    return a + b + c
+
+@guppy
+def f_tensor_local(f: Callable[[int], int]) -> int:
+    t = (f, glob)
+    a, b = t(1, 2)
+    return a + b
+
+# ---- more modifier block kinds
+@guppy
+def f_mod_power(q: qubit) -> None:
+    with power(2):
+        h(q)
+
+@guppy
+def f_mod_multi(q: qubit, c: qubit) -> None:
+    with control(c), dagger:
+        h(q)
+
+@guppy
+def f_mod_nested(q: qubit, c: qubit) -> None:
+    with control(c):
+        with dagger:
+            h(q)
 
 @guppy
 def a1(x: int) -> int:
@@ -93,10 +187,11 @@ def f_plain(x: int) -> int:
     return t[0] + t[1]
 '''
 PROGRAMS = {
-    "check_lists_enabled": ["f_list", "f_list_chk", "f_listcomp", "f_listty"],
-    "check_function_tensors_enabled": ["f_tensor", "f_tensor_chk"],
-    "check_capturing_closures_enabled": ["f_closure", "f_closure2"],
-    "check_modifiers_enabled": ["f_mod", "f_mod_ctrl"],
+    "check_lists_enabled": ["f_list", "f_list_chk", "f_listcomp", "f_listty", "f_list_nested", "f_list_ret", "f_list_arg"],
+    "check_function_tensors_enabled": ["f_tensor", "f_tensor_chk", "f_tensor3", "f_tensor_local"],
+    "check_capturing_closures_enabled": ["f_closure", "f_closure2", "f_clos_callable", "f_clos_funlocal", "f_clos_returned",
+                                         "f_clos_struct", "f_clos_mixed", "f_clos_float"],
+    "check_modifiers_enabled": ["f_mod", "f_mod_ctrl", "f_mod_power", "f_mod_multi", "f_mod_nested"],
 }
 
 inp = json.load(sys.stdin)
